@@ -14,6 +14,7 @@ use std::collections::HashMap;
 thread_local! {
 	static IMPORT_PERMUTATION: RefCell<Option<usize>> = RefCell::new(None);
 	static LAST_IMPORT_COUNT: RefCell<usize> = RefCell::new(0);
+	static LAST_IMPORT_ORDER_HASHED: RefCell<bool> = RefCell::new(false);
 	static TAPE: RefCell<Option<Tape>> = RefCell::new(None);
 }
 
@@ -30,10 +31,20 @@ pub fn last_import_count() -> usize
 	LAST_IMPORT_COUNT.with(|x| *x.borrow())
 }
 
-pub fn order_imports(
-	imports: impl IntoIterator<Item = (usize, usize)>,
-) -> Vec<(usize, usize)>
+/// Whether the collection handed to the last call of `order_imports` was a
+/// hash collection, that is, whether its iteration order can differ between
+/// runs (in which case every permutation is a possible schedule).
+pub fn last_import_order_is_hashed() -> bool
 {
+	LAST_IMPORT_ORDER_HASHED.with(|x| *x.borrow())
+}
+
+pub fn order_imports<C>(imports: C) -> Vec<(usize, usize)>
+where
+	C: IntoIterator<Item = (usize, usize)>,
+{
+	let is_hashed = std::any::type_name::<C>().contains("Hash");
+	LAST_IMPORT_ORDER_HASHED.with(|x| *x.borrow_mut() = is_hashed);
 	let selected = IMPORT_PERMUTATION.with(|x| *x.borrow());
 	let mut pairs: Vec<(usize, usize)> = imports.into_iter().collect();
 	LAST_IMPORT_COUNT.with(|x| *x.borrow_mut() = pairs.len());
